@@ -370,6 +370,15 @@ func (lm *levelManager) maxVersion() uint64 {
 				max = v
 			}
 		}
+		// Tables parked in the level's ingest buffer hold committed data as well.
+		for _, tbl := range lh.ingest.allTables() {
+			if tbl == nil {
+				continue
+			}
+			if v := tbl.MaxVersionVal(); v > max {
+				max = v
+			}
+		}
 		lh.RUnlock()
 	}
 	return max
